@@ -47,4 +47,3 @@ Qed.
 Theorem C05_any_history h : obs (run_history h s0) = obs (iter (batches h) s0).
 Proof. apply obs_respects. apply (history_equiv h s0 0). apply equiv_refl. Qed.
 End Resume.
-Print Assumptions C05_any_history.
